@@ -78,6 +78,21 @@ if __name__ == '__main__':
         res = check(sys.argv[2], sys.argv[3] if len(sys.argv) > 3 else 'quick', sys.argv[4:] or None)
         print(json.dumps(res, indent=1))
         sys.exit(0 if any(v['rc'] == 1 for v in res.values()) else 1)
+    elif cmd == 'refresh':
+        # re-run every seeded change and record the current result in its meta.json
+        # (the result of the very first run is kept as first_quick_check_result)
+        only = sys.argv[2:]
+        for sid in sorted(os.listdir(os.path.join(V, 'seeded'))):
+            mp = os.path.join(V, 'seeded', sid, 'meta.json')
+            if not os.path.exists(mp) or (only and not any(sid.startswith(o) for o in only)): continue
+            m = json.load(open(mp))
+            res = check(sid)
+            cur = {p: {'caught': v['rc'] == 1, 'rc': v['rc'], 'sigs': v['sigs'][:3]} for p, v in res.items()}
+            if 'first_quick_check_result' not in m:
+                m['first_quick_check_result'] = m.get('quick_check_result') or cur
+            m['quick_check_result'] = cur
+            json.dump(m, open(mp, 'w'), indent=1)
+            print('%-22s %s' % (sid, ' '.join('%s:%s' % (p, 'CAUGHT' if v['rc'] == 1 else 'MISSED rc=%d' % v['rc']) for p, v in res.items())), flush=True)
     elif cmd == 'all':
         tier = sys.argv[2] if len(sys.argv) > 2 else 'quick'
         for sid in sorted(os.listdir(os.path.join(V, 'seeded'))):
